@@ -20,6 +20,7 @@ type PktInfo struct {
 	Tx   int // transmission count of this (sid,dir,seq) incl. this one (seq-bearing kinds)
 	Meta refcodec.Meta
 	Len  int
+	Seg  *refcodec.Segment
 }
 
 func kindOf(t byte) string {
@@ -51,6 +52,9 @@ type Rule struct {
 	Count   int    // how many matching datagrams to act on
 	DelayMs int
 	Dups    int
+	Mut     *MutSpec // Action "mutate"
+	Skip    int      // let this many matching datagrams pass first
+	skipped int
 	hits    int
 }
 
@@ -82,8 +86,9 @@ type FaultPlan struct {
 	ackRun   map[string]int
 	sidOrder map[uint32]int
 	// statistics
-	Stats map[string]int
-	Hits  []string // rule hits in order, for shapes
+	Stats   map[string]int
+	Hits    []string // rule hits in order, for shapes
+	MutDesc []string
 	// Observe is called for every classified datagram (under lock).
 	Observe func(p *PktInfo, d *simnet.Datagram)
 }
@@ -107,6 +112,7 @@ func (fp *FaultPlan) classify(d *simnet.Datagram) PktInfo {
 		return p
 	}
 	p.OK = true
+	p.Seg = seg
 	p.Meta = seg.Meta
 	p.Kind = kindOf(seg.Meta.Type)
 	p.SID = seg.Meta.SessionID
@@ -177,6 +183,10 @@ func (fp *FaultPlan) Decide(d *simnet.Datagram) simnet.Decision {
 		if r.SIDIdx >= 0 && fp.sidOrder[p.SID] != r.SIDIdx {
 			continue
 		}
+		if r.skipped < r.Skip {
+			r.skipped++
+			continue
+		}
 		switch r.Action {
 		case "drop":
 			if !canDrop() {
@@ -188,6 +198,16 @@ func (fp *FaultPlan) Decide(d *simnet.Datagram) simnet.Decision {
 			dec.Dup = 1 + r.Dups
 		case "delay":
 			dec.Delay = time.Duration(r.DelayMs) * time.Millisecond
+		case "mutate":
+			if p.Seg == nil || r.Mut == nil {
+				continue
+			}
+			mw, desc, ok := applyBytesMut(d.Data, p.Seg, *r.Mut, fp.rnd)
+			if !ok {
+				continue
+			}
+			dec.Replace = mw
+			fp.MutDesc = append(fp.MutDesc, fmt.Sprintf("%v: %s", p.Meta, desc))
 		}
 		r.hits++
 		acted = true
